@@ -174,7 +174,7 @@ for _n, _s in [('mul', 'MMM'), ('add', 'MMM'), ('sub', 'MMM'), ('hmul', 'MMM'), 
                ('sadd', 'MRM'), ('sdiv', 'MRM'), ('rdiv', 'RMM'), ('tr', 'MM'), ('inv', 'MM'), ('diag', 'MM'),
                ('full', 'LRM'), ('hcat', 'MMM'), ('lcols', 'MM'), ('lastcol', 'MM'), ('view', 'MLLM'),
                ('eigvals', 'MM'), ('eigvecs', 'MM'), ('clampmin', 'MRM'), ('outer', 'MMM'), ('sumall', 'MM'),
-               ('item', 'MR'), ('allsum', 'MIM'), ('numel', 'LI'), ('patches', 'MLIIIIIIM')]:
+               ('item', 'MR'), ('numel', 'LI'), ('patches', 'MLIIIIIIM')]:
     _mat_op(_n, _s)
 
 
@@ -269,6 +269,41 @@ def _in_group(eng, st, args, kwargs):
     return BoolV(eng.D.is_member(eng, st, g))
 
 
+@spec('allsum')
+def _allsum(eng, st, args, kwargs):
+    from . import tensors as T
+    from . import values as Vm
+    v, g = args
+    return V(T.KMat, T.mf('allsum', T.M, Vm.SetIntS, T.M)(_as_mat(eng, st, v), eng.D.members(eng, st, g)))
+
+
+@spec('vals')
+def _vals(eng, st, args, kwargs):
+    """vals(ts): the list of the values of the tensors of a list (used under old() to name their entry values)."""
+    from . import tensors as T
+    from .values import KList, ListOps, fresh_name
+    from . import values as Vm
+    (ts,) = args
+    li, lo = ListOps(ts.kind), ListOps(KList(T.KMat))
+    hv = T._arr(eng, st, 'val')
+    key = ('vals', ts.term.get_id(), hv.get_id())
+    if key not in eng.uf_cache:
+        out = z3.Const(fresh_name('vals'), KList(T.KMat).sort())
+        j = z3.Int(fresh_name('vj'))
+        eng.fact(st, lo.len(out) == li.len(ts.term))
+        eng.fact(st, Vm.forall([j], z3.Implies(z3.And(j >= 0, j < li.len(ts.term)), lo.at(out, j) == z3.Select(hv, li.at(ts.term, j))),
+                               patterns=[lo.at(out, j)]))
+        eng.uf_cache[key] = out
+    return V(KList(T.KMat), eng.uf_cache[key])
+
+
+@spec('group_members')
+def _group_members(eng, st, args, kwargs):
+    from .values import KSetInt
+    (g,) = args
+    return V(KSetInt, eng.D.members(eng, st, g))
+
+
 @spec('rank_in_group')
 def _rank_in_group(eng, st, args, kwargs):
     r, g = args
@@ -308,7 +343,7 @@ def _event(eng, st, args, kwargs):
                  IntV(eng.as_int(n, st)), V(eng.D.KEvent.items[4], coerce(dt, _KRef('dtype')).term if dt.kind != eng.D.KEvent.items[4] else dt.term)])
 
 
-for _n, _s in [('triu', 'MM'), ('filltriu', 'LMM'), ('bcast', 'IIIM')]:
+for _n, _s in [('triu', 'MM'), ('filltriu', 'LMM'), ('bcast', 'IIIM'), ('tri_numel', 'III')]:
     _mat_op(_n, _s)
 
 
